@@ -62,3 +62,35 @@ def check_C01(tier, seed, replay=None):
         return [(ii, oi) for ii in allin]
     div, tot = run.execute(groups, inputs, options, plan_for, flagsets)
     return std_finish(run, div, tot, "E(d) exhaustive single-rule grammars + random multi-rule grammars x all inputs up to the bound x flag sets; a group is distinct by construction (enumeration) and non-trivial when it has at least one operator")
+
+
+# ------------------------------------------------------------------------------------------
+def check_C02(tier, seed, replay=None):
+    """code blocks observe the true match context: every event (also on abandoned alternatives) is compared"""
+    import findings
+    run = Run("C02", tier, seed)
+    R = F.RUNES
+    if tier == "quick":
+        trees = F.exhaustive(1, F.LEAVES_UTF8 + F.PRED_LEAVES + [("state", "set", "x", 1)])
+        nrand, maxlen = 500, 3
+        flagsets = FLAGSETS_2 + [["-optimize-parser"]]
+        alpha = [R["a"], R["nl"], R["eacute"], R["euro"]]
+    else:
+        trees = F.exhaustive(1, F.LEAVES_UTF8 + F.PRED_LEAVES + [("state", "set", "x", 1)], ternary=False)
+        nrand, maxlen = 4000, 4
+        flagsets = FLAGSETS_8
+        alpha = [R["a"], R["b"], R["nl"], R["eacute"], R["euro"]]
+    # every expression of the family is wrapped so that a labelled value reaches a block
+    trees = [("lact", t, ("lit", (), False)) for t in trees] + trees
+    groups = F.groups_from_trees(trees)
+    cfg = F.RandCfg(depth=4, maxrules=3, leaves=F.LEAVES_UTF8 + F.LEAVES_FULL, preds=True, state=True, cloner=True)
+    groups += F.random_groups(seed, nrand, cfg, gi0=len(groups) + 1)
+    inputs = F.all_inputs(alpha, maxlen)
+    options = [opt(), opt(memo=True), opt(maxexpr=3000), opt(maxexpr=3000, memo=True)]
+    nin = len(inputs)
+    run.add_witnesses([f["id"] for f in findings.active("C02")], groups, inputs, options)
+
+    def plan_for(g):
+        return [(ii, oi) for ii in range(nin) for oi in ((2,) if g.maydiverge else (0, 1))]
+    div, tot = run.execute(groups, inputs, options, plan_for, flagsets, lower=[[201, 233]])
+    return std_finish(run, div, tot, "block placements over E(1) with multi-byte and newline terminals + random multi-rule grammars with actions, predicates, state blocks and labels x all inputs over {a,\\n,e-acute,euro} up to the bound x {default, Memoize}; every code-block event is compared")
